@@ -798,7 +798,56 @@ def cond_literals(test: ast.AST, polarity: bool, env: Optional[Env] = None) -> L
             o = "!="
         return ["(%s %s %s)" % (a, o, b)]
     t = str(_sym(test, env))
-    return [t if polarity else "not(%s)" % t]
+    if polarity:
+        parts = _split_top(t, " and ")
+        if len(parts) > 1:
+            return sorted(set(parts))
+    else:
+        parts = _split_top(t, " or ")
+        if len(parts) > 1:
+            return sorted(set(_negate_text(x) for x in parts))
+    return [t if polarity else _negate_text(t)]
+
+
+def _negate_text(t: str) -> str:
+    if t.startswith("not(") and t.endswith(")") and _balanced(t[4:-1]):
+        return t[4:-1]
+    return "not(%s)" % t
+
+
+def _balanced(t: str) -> bool:
+    d = 0
+    for ch in t:
+        if ch in "([{":
+            d += 1
+        elif ch in ")]}":
+            d -= 1
+            if d < 0:
+                return False
+    return d == 0
+
+
+def _split_top(t: str, sep: str) -> List[str]:
+    """split "(a SEP b SEP c)" at its top-level separators (the form _sym gives a BoolOp); [] / [t] otherwise"""
+    if not (t.startswith("(") and t.endswith(")") and _balanced(t[1:-1])):
+        return [t]
+    inner = t[1:-1]
+    out, d, cur, i = [], 0, "", 0
+    while i < len(inner):
+        ch = inner[i]
+        if ch in "([{":
+            d += 1
+        elif ch in ")]}":
+            d -= 1
+        if d == 0 and inner.startswith(sep, i):
+            out.append(cur)
+            cur = ""
+            i += len(sep)
+            continue
+        cur += ch
+        i += 1
+    out.append(cur)
+    return out if len(out) > 1 else [t]
 
 
 def cond_set(guards, env_of=None) -> List[str]:
